@@ -20,6 +20,7 @@ RULE = ("scaled / fixed-variable / linearly and nonlinearly constrained "
         "Non-trivial = a sampled k at which the best point changed or is not "
         "the last evaluated point; distinct = (convention, callable kind, "
         "constraint kind, scale, k bucket)")
+RULE += ("  Also: scaled problems whose solution sits on the bounds; unhashable callable callbacks.")
 ASSUMPTIONS = [
     "solver deterministic (C11): reruns reproduce the base run up to call k",
     "optimality judged with the C03 reference model and the harness' true "
